@@ -16,8 +16,9 @@ of sort keys and every chain of stages.
   the code (a bare variable holding a number): `_partial` version + witness.
 * §3 the code's evaluation against SQL three-valued logic: sound on the ordering fragment;
   one witness per deviation.
-* §4 `SortOperator`: permutation, sorted, stable, independent of the chunking; the comparator is
-  total everywhere and transitive on columns of one kind; witnesses where it is not.
+* §4 `SortOperator`: permutation, sorted, stable, independent of the chunking; the (repaired)
+  comparator is a total preorder on all values and equals the specification's order; the old
+  comparator's failures are kept as regression theorems under `Old`.
 * §5 `count(*)` / `count(col)`.
 * §6 chains filter → distinct → sort → skip → limit = the list-level specification.
 -/
@@ -361,7 +362,7 @@ theorem asBool_some (v : Val) (b : Bool) (h : asBool v = some b) : v = .bool b :
 
 /-- on the ordering fragment a definite answer of the code is the answer of SQL -/
 theorem ordPred_sound : (e : Ex) → e.ordPred = true → ∀ row b,
-    evalQ Quirks.code e row = some (.bool b) → evalQ Quirks.sql e row = some (.bool b)
+    evalQ Quirks.strict e row = some (.bool b) → evalQ Quirks.sql e row = some (.bool b)
   | .lit _, h, _, _ => by simp [Ex.ordPred] at h
   | .col _, h, _, _ => by simp [Ex.ordPred] at h
   | .mis, h, _, _ => by simp [Ex.ordPred] at h
@@ -373,13 +374,13 @@ theorem ordPred_sound : (e : Ex) → e.ordPred = true → ∀ row b,
     | neg => simp [Ex.ordPred] at h
     | isNull =>
       simp only [Ex.ordPred] at h
-      rw [← valTerm_indep Quirks.code Quirks.sql e h row]; exact hv
+      rw [← valTerm_indep Quirks.strict Quirks.sql e h row]; exact hv
     | notNull =>
       simp only [Ex.ordPred] at h
-      rw [← valTerm_indep Quirks.code Quirks.sql e h row]; exact hv
+      rw [← valTerm_indep Quirks.strict Quirks.sql e h row]; exact hv
     | not =>
       simp only [Ex.ordPred] at h
-      cases hc : evalQ Quirks.code e row with
+      cases hc : evalQ Quirks.strict e row with
       | none => simp [hc, evalUn] at hv
       | some v =>
         cases v with
@@ -392,11 +393,11 @@ theorem ordPred_sound : (e : Ex) → e.ordPred = true → ∀ row b,
         | str _ => simp [hc, evalUn, asBool] at hv
   | .bin op l r, h, row, b => by
     intro hv
-    rw [evalQ_bin_strict Quirks.code op l r row (by simp [Quirks.code])] at hv
-    cases hl : evalQ Quirks.code l row with
+    rw [evalQ_bin_strict Quirks.strict op l r row (by simp [Quirks.strict])] at hv
+    cases hl : evalQ Quirks.strict l row with
     | none => simp [hl] at hv
     | some x =>
-      cases hr : evalQ Quirks.code r row with
+      cases hr : evalQ Quirks.strict r row with
       | none => simp [hl, hr] at hv
       | some y =>
         simp only [hl, hr] at hv
@@ -411,7 +412,7 @@ theorem ordPred_sound : (e : Ex) → e.ordPred = true → ∀ row b,
         | mod => simp at h
         | and =>
           simp only [Bool.and_eq_true] at h
-          simp only [evalBin, Quirks.code, if_true] at hv
+          simp only [evalBin, Quirks.strict, if_true] at hv
           cases hx : asBool x with
           | none => simp [hx] at hv
           | some bx =>
@@ -426,7 +427,7 @@ theorem ordPred_sound : (e : Ex) → e.ordPred = true → ∀ row b,
               rw [evalQ_sql_and, ordPred_sound l h.1 row bx hl, ordPred_sound r h.2 row by' hr, and3_of_bools, hv]
         | or =>
           simp only [Bool.and_eq_true] at h
-          simp only [evalBin, Quirks.code, if_true] at hv
+          simp only [evalBin, Quirks.strict, if_true] at hv
           cases hx : asBool x with
           | none => simp [hx] at hv
           | some bx =>
@@ -459,46 +460,46 @@ theorem ordPred_sound : (e : Ex) → e.ordPred = true → ∀ row b,
         | lt =>
           simp only [Bool.and_eq_true] at h
           rw [evalQ_bin_strict Quirks.sql _ l r row (by decide),
-            ← valTerm_indep Quirks.code Quirks.sql l h.1 row, ← valTerm_indep Quirks.code Quirks.sql r h.2 row, hl, hr]
+            ← valTerm_indep Quirks.strict Quirks.sql l h.1 row, ← valTerm_indep Quirks.strict Quirks.sql r h.2 row, hl, hr]
           exact hv
         | le =>
           simp only [Bool.and_eq_true] at h
           rw [evalQ_bin_strict Quirks.sql _ l r row (by decide),
-            ← valTerm_indep Quirks.code Quirks.sql l h.1 row, ← valTerm_indep Quirks.code Quirks.sql r h.2 row, hl, hr]
+            ← valTerm_indep Quirks.strict Quirks.sql l h.1 row, ← valTerm_indep Quirks.strict Quirks.sql r h.2 row, hl, hr]
           exact hv
         | gt =>
           simp only [Bool.and_eq_true] at h
           rw [evalQ_bin_strict Quirks.sql _ l r row (by decide),
-            ← valTerm_indep Quirks.code Quirks.sql l h.1 row, ← valTerm_indep Quirks.code Quirks.sql r h.2 row, hl, hr]
+            ← valTerm_indep Quirks.strict Quirks.sql l h.1 row, ← valTerm_indep Quirks.strict Quirks.sql r h.2 row, hl, hr]
           exact hv
         | ge =>
           simp only [Bool.and_eq_true] at h
           rw [evalQ_bin_strict Quirks.sql _ l r row (by decide),
-            ← valTerm_indep Quirks.code Quirks.sql l h.1 row, ← valTerm_indep Quirks.code Quirks.sql r h.2 row, hl, hr]
+            ← valTerm_indep Quirks.strict Quirks.sql l h.1 row, ← valTerm_indep Quirks.strict Quirks.sql r h.2 row, hl, hr]
           exact hv
         | sw =>
           simp only [Bool.and_eq_true] at h
           rw [evalQ_bin_strict Quirks.sql _ l r row (by decide),
-            ← valTerm_indep Quirks.code Quirks.sql l h.1 row, ← valTerm_indep Quirks.code Quirks.sql r h.2 row, hl, hr]
+            ← valTerm_indep Quirks.strict Quirks.sql l h.1 row, ← valTerm_indep Quirks.strict Quirks.sql r h.2 row, hl, hr]
           exact hv
         | ew =>
           simp only [Bool.and_eq_true] at h
           rw [evalQ_bin_strict Quirks.sql _ l r row (by decide),
-            ← valTerm_indep Quirks.code Quirks.sql l h.1 row, ← valTerm_indep Quirks.code Quirks.sql r h.2 row, hl, hr]
+            ← valTerm_indep Quirks.strict Quirks.sql l h.1 row, ← valTerm_indep Quirks.strict Quirks.sql r h.2 row, hl, hr]
           exact hv
         | ct =>
           simp only [Bool.and_eq_true] at h
           rw [evalQ_bin_strict Quirks.sql _ l r row (by decide),
-            ← valTerm_indep Quirks.code Quirks.sql l h.1 row, ← valTerm_indep Quirks.code Quirks.sql r h.2 row, hl, hr]
+            ← valTerm_indep Quirks.strict Quirks.sql l h.1 row, ← valTerm_indep Quirks.strict Quirks.sql r h.2 row, hl, hr]
           exact hv
 
-/-- P: on the ordering fragment (comparisons `< <= > >=`, string tests and `IS [NOT] NULL` over
+/-- P (the code with AND / OR strict in both operands): on the ordering fragment (comparisons `< <= > >=`, string tests and `IS [NOT] NULL` over
 value terms, under `AND` / `OR` / `XOR` / `NOT`) the code never returns a wrong row: what
 `WHERE p` returns is true in SQL's three-valued logic and what `WHERE NOT p` returns is false.
 (The code may call "unknown" what SQL decides — `c11b_and_not_kleene_witness`.) -/
-theorem c11b_code_sound_on_ordering_fragment_partial (p : Ex) (hp : p.ordPred = true) (r : Row) :
-    (passes Quirks.code p r = true → specTV p r = .t) ∧
-    (passes Quirks.code p.not r = true → specTV p r = .f) := by
+theorem c11b_strict_sound_on_ordering_fragment_partial (p : Ex) (hp : p.ordPred = true) (r : Row) :
+    (passes Quirks.strict p r = true → specTV p r = .t) ∧
+    (passes Quirks.strict p.not r = true → specTV p r = .f) := by
   constructor
   · intro h
     unfold passes at h
@@ -507,8 +508,8 @@ theorem c11b_code_sound_on_ordering_fragment_partial (p : Ex) (hp : p.ordPred = 
   · intro h
     unfold passes Ex.not at h
     rw [evalQ_un] at h
-    have hv : evalQ Quirks.code p r = some (.bool false) := by
-      cases hc : evalQ Quirks.code p r with
+    have hv : evalQ Quirks.strict p r = some (.bool false) := by
+      cases hc : evalQ Quirks.strict p r with
       | none => simp [hc, evalUn] at h
       | some v =>
         cases v with
@@ -525,7 +526,7 @@ theorem c11b_code_sound_on_ordering_fragment_partial (p : Ex) (hp : p.ordPred = 
 theorem c11b_and_not_kleene_witness :
     let p := Ex.bin .and (.bin .lt (.col 0) (.lit (.int 3))) (.bin .lt (.col 1) (.lit (.int 3)))
     let r : Row := [.int 5, .null]
-    specTV p r = .f ∧ passes Quirks.code p.not r = false ∧ passes Quirks.code p.isNull r = true ∧
+    specTV p r = .f ∧ passes Quirks.strict p.not r = false ∧ passes Quirks.strict p.isNull r = true ∧
       p.ordPred = true := by
   decide
 
@@ -557,9 +558,112 @@ theorem c11b_in_two_valued_witness :
 /-- N: the soundness theorem is not vacuous: a fragment predicate with all three outcomes. -/
 theorem c11b_code_sound_nonvacuous :
     let p := Ex.bin .or (.bin .lt (.bin .div (.lit (.int 6)) (.col 0)) (.lit (.int 3))) (.un .isNull (.col 1))
-    p.ordPred = true ∧ passes Quirks.code p [.int 3, .int 0] = true ∧ passes Quirks.code p.not [.int 1, .int 0] = true ∧
-      passes Quirks.code p.isNull [.int 0, .int 0] = true := by
+    p.ordPred = true ∧ passes Quirks.strict p [.int 3, .int 0] = true ∧ passes Quirks.strict p.not [.int 1, .int 0] = true ∧
+      passes Quirks.strict p.isNull [.int 0, .int 0] = true := by
   decide
+
+/-- with Kleene's AND / OR the evaluation no longer depends on the remaining switches on the
+ordering fragment -/
+theorem ordPred_indep (q q' : Quirks) (hq : q.strictBool = false) (hq' : q'.strictBool = false) :
+    (e : Ex) → e.ordPred = true → ∀ row, evalQ q e row = evalQ q' e row
+  | .lit _, h, _ => by simp [Ex.ordPred] at h
+  | .col _, h, _ => by simp [Ex.ordPred] at h
+  | .mis, h, _ => by simp [Ex.ordPred] at h
+  | .inl _ _, h, _ => by simp [Ex.ordPred] at h
+  | .un op e, h, row => by
+    rw [evalQ_un, evalQ_un]
+    cases op with
+    | neg => simp [Ex.ordPred] at h
+    | isNull => simp only [Ex.ordPred] at h; rw [valTerm_indep q q' e h row]
+    | notNull => simp only [Ex.ordPred] at h; rw [valTerm_indep q q' e h row]
+    | not => simp only [Ex.ordPred] at h; rw [ordPred_indep q q' hq hq' e h row]
+  | .bin op l r, h, row => by
+    simp only [Ex.ordPred] at h
+    cases op with
+    | eq => simp at h
+    | ne => simp at h
+    | add => simp at h
+    | sub => simp at h
+    | mul => simp at h
+    | div => simp at h
+    | mod => simp at h
+    | and =>
+      simp only [Bool.and_eq_true] at h
+      rw [evalQ, evalQ]
+      simp only [hq, hq', Bool.not_false, Bool.true_and, beq_self_eq_true, Bool.true_or, if_true]
+      rw [ordPred_indep q q' hq hq' l h.1 row, ordPred_indep q q' hq hq' r h.2 row]
+    | or =>
+      simp only [Bool.and_eq_true] at h
+      rw [evalQ, evalQ]
+      have e1 : ((BOp.or == BOp.and) = false) := by decide
+      simp only [hq, hq', Bool.not_false, Bool.true_and, beq_self_eq_true, Bool.or_true, if_true, e1,
+        Bool.false_eq_true, if_false]
+      rw [ordPred_indep q q' hq hq' l h.1 row, ordPred_indep q q' hq hq' r h.2 row]
+    | xor =>
+      simp only [Bool.and_eq_true] at h
+      rw [evalQ_bin_strict q .xor l r row (by simp), evalQ_bin_strict q' .xor l r row (by simp),
+        ordPred_indep q q' hq hq' l h.1 row, ordPred_indep q q' hq hq' r h.2 row]
+      cases evalQ q' l row <;> cases evalQ q' r row <;> rfl
+    | lt =>
+      simp only [Bool.and_eq_true] at h
+      rw [evalQ_bin_strict q _ l r row (by simp), evalQ_bin_strict q' _ l r row (by simp),
+        valTerm_indep q q' l h.1 row, valTerm_indep q q' r h.2 row]
+      cases evalQ q' l row <;> cases evalQ q' r row <;> rfl
+    | le =>
+      simp only [Bool.and_eq_true] at h
+      rw [evalQ_bin_strict q _ l r row (by simp), evalQ_bin_strict q' _ l r row (by simp),
+        valTerm_indep q q' l h.1 row, valTerm_indep q q' r h.2 row]
+      cases evalQ q' l row <;> cases evalQ q' r row <;> rfl
+    | gt =>
+      simp only [Bool.and_eq_true] at h
+      rw [evalQ_bin_strict q _ l r row (by simp), evalQ_bin_strict q' _ l r row (by simp),
+        valTerm_indep q q' l h.1 row, valTerm_indep q q' r h.2 row]
+      cases evalQ q' l row <;> cases evalQ q' r row <;> rfl
+    | ge =>
+      simp only [Bool.and_eq_true] at h
+      rw [evalQ_bin_strict q _ l r row (by simp), evalQ_bin_strict q' _ l r row (by simp),
+        valTerm_indep q q' l h.1 row, valTerm_indep q q' r h.2 row]
+      cases evalQ q' l row <;> cases evalQ q' r row <;> rfl
+    | sw =>
+      simp only [Bool.and_eq_true] at h
+      rw [evalQ_bin_strict q _ l r row (by simp), evalQ_bin_strict q' _ l r row (by simp),
+        valTerm_indep q q' l h.1 row, valTerm_indep q q' r h.2 row]
+      cases evalQ q' l row <;> cases evalQ q' r row <;> rfl
+    | ew =>
+      simp only [Bool.and_eq_true] at h
+      rw [evalQ_bin_strict q _ l r row (by simp), evalQ_bin_strict q' _ l r row (by simp),
+        valTerm_indep q q' l h.1 row, valTerm_indep q q' r h.2 row]
+      cases evalQ q' l row <;> cases evalQ q' r row <;> rfl
+    | ct =>
+      simp only [Bool.and_eq_true] at h
+      rw [evalQ_bin_strict q _ l r row (by simp), evalQ_bin_strict q' _ l r row (by simp),
+        valTerm_indep q q' l h.1 row, valTerm_indep q q' r h.2 row]
+      cases evalQ q' l row <;> cases evalQ q' r row <;> rfl
+
+/-- P (the code with Kleene's AND / OR, i.e. after the repair "AND and OR in predicates follow
+three-valued logic"): on the ordering fragment the three filters `p`, `NOT p`, `p IS NULL` return
+exactly SQL's true / false / unknown rows. -/
+theorem c11b_kleene_eq_sql_on_ordering_fragment_partial (p : Ex) (hp : p.ordPred = true) (r : Row) :
+    passes Quirks.kleene p r = (specTV p r == .t) ∧ passes Quirks.kleene p.not r = (specTV p r == .f) ∧
+      passes Quirks.kleene p.isNull r = (specTV p r == .u) := by
+  have e := ordPred_indep Quirks.kleene Quirks.sql rfl rfl p hp r
+  unfold passes specTV Ex.not Ex.isNull
+  rw [evalQ_un, evalQ_un, e]
+  have hb := isPred_boolish Quirks.sql p r (by
+    cases p <;> simp [Ex.ordPred, Ex.isPred] at hp ⊢
+    · rename_i op _ _; cases op <;> simp at hp ⊢
+    · rename_i op _; cases op <;> simp at hp ⊢)
+  unfold boolish at hb
+  cases hv : evalQ Quirks.sql p r with
+  | none => simp [evalUn, tvOf]
+  | some v =>
+    rw [hv] at hb
+    cases v with
+    | null => decide
+    | bool b => cases b <;> decide
+    | int _ => simp at hb
+    | flt _ => simp at hb
+    | str _ => simp at hb
 
 /-! ## §4 SortOperator -/
 
@@ -669,7 +773,7 @@ theorem c11b_sort_chunking_irrelevant (cap : Nat) (keys : List SortKey) (cs cs' 
 
 /-- P: sorted under the engine's comparator, provided that comparator is transitive and total on
 the rows present (decidable conditions on the table; see `c11b_rowLe_total`,
-`c11b_rowLe_trans_ordered_partial` for when they hold). -/
+`c11b_rowLe_trans` for why they hold on every table). -/
 theorem c11b_sort_sorted_partial (cap : Nat) (hc : 0 < cap) (keys : List SortKey) (cs : List (List Row))
     (ht : TransOn (rowLe keys) cs.flatten) (hto : TotalOn (rowLe keys) cs.flatten) :
     (sortOp cap keys cs).flatten.Pairwise (fun a b => rowLe keys a b = true) := by
@@ -684,7 +788,7 @@ theorem c11b_sort_stable_partial (cap : Nat) (hc : 0 < cap) (keys : List SortKey
       cs.flatten.filter (fun x => rowLe keys a x && rowLe keys x a) := by
   rw [c11b_sort_flatten cap hc]; exact stable_mergeSort_on _ _ ht hto a ha
 
-/-! ### the engine's comparator: total; transitive on columns of one kind -/
+/-! ### the engine's comparator: a total preorder on all values; equal to the specification's -/
 
 section Comparator
 
@@ -867,464 +971,6 @@ theorem cmpBytes_ok : OrdOK cmpBytes (fun _ => True) where
   ltlt a b c _ _ _ := cmpBytes_ltlt a b c
   eql a b c _ _ _ h := by rw [cmpBytes_eq a b h]
 
-/-- the value comparator of sort.rs on the values of one kind -/
-theorem sortCmpVals_ok (K : Nat) : OrdOK sortCmpVals (fun v => kind1 v = K ∧ K ≠ 0) := by
-  by_cases hK : K = 2
-  · -- strings: byte order
-    subst hK
-    have hs : ∀ v : Val, kind1 v = 2 → ∃ t, v = .str t := by
-      intro v hv
-      cases v with
-      | str t => exact ⟨t, rfl⟩
-      | flt f => simp only [kind1] at hv; split at hv <;> omega
-      | null => simp [kind1] at hv
-      | bool _ => simp [kind1] at hv
-      | int _ => simp [kind1] at hv
-    refine ⟨?_, ?_, ?_⟩
-    · intro a b ha hb
-      obtain ⟨x, rfl⟩ := hs a ha.1
-      obtain ⟨y, rfl⟩ := hs b hb.1
-      exact cmpBytes_flip x y
-    · intro a b c ha hb hc
-      obtain ⟨x, rfl⟩ := hs a ha.1
-      obtain ⟨y, rfl⟩ := hs b hb.1
-      obtain ⟨z, rfl⟩ := hs c hc.1
-      exact cmpBytes_ltlt x y z
-    · intro a b c ha hb hc e
-      obtain ⟨x, rfl⟩ := hs a ha.1
-      obtain ⟨y, rfl⟩ := hs b hb.1
-      obtain ⟨z, rfl⟩ := hs c hc.1
-      have : x = y := cmpBytes_eq x y e
-      rw [this]
-  · -- every other kind has an integer rank
-    apply OrdOK.of_rank sortCmpVals _ (fun v => match v with
-      | .bool b => (b.toNat : Int)
-      | .int i => i
-      | .flt b => if F64.isNaN b then 0 else F64.key b
-      | _ => 0)
-    intro a b ⟨ha, h0⟩ ⟨hb, _⟩
-    cases a with
-    | null => simp [kind1] at ha; omega
-    | str s => simp [kind1] at ha; omega
-    | bool x =>
-      cases b with
-      | bool y =>
-        simp only [sortCmpVals]
-        cases x <;> cases y <;> decide
-      | null => simp [kind1] at ha hb; omega
-      | int _ => simp [kind1] at ha hb; omega
-      | str _ => simp [kind1] at ha hb; omega
-      | flt f => simp only [kind1] at ha hb; split at hb <;> omega
-    | int x =>
-      cases b with
-      | int y => simp [sortCmpVals]
-      | null => simp [kind1] at ha hb; omega
-      | bool _ => simp [kind1] at ha hb; omega
-      | str _ => simp [kind1] at ha hb; omega
-      | flt f => simp only [kind1] at ha hb; split at hb <;> omega
-    | flt x =>
-      cases b with
-      | flt y =>
-        simp only [kind1] at ha hb
-        simp only [sortCmpVals, F64.partialCmp]
-        by_cases nx : F64.isNaN x = true <;> by_cases ny : F64.isNaN y = true
-        · simp [nx, ny]
-        · simp [nx, ny] at ha hb; omega
-        · simp [nx, ny] at ha hb; omega
-        · simp [nx, ny]
-      | null => simp only [kind1] at ha hb; split at ha <;> omega
-      | bool _ => simp only [kind1] at ha hb; split at ha <;> omega
-      | str _ => simp only [kind1] at ha hb; split at ha <;> omega
-      | int _ => simp only [kind1] at ha hb; split at ha <;> omega
-
-theorem kind1_eq_zero (v : Val) : kind1 v = 0 ↔ v = .null := by
-  cases v with
-  | flt f => simp only [kind1]; split <;> simp
-  | null => simp [kind1]
-  | bool _ => simp [kind1]
-  | int _ => simp [kind1]
-  | str _ => simp [kind1]
-
-theorem mem_dedupInts (a : Int) (l : List Int) : a ∈ dedupInts l ↔ a ∈ l := by
-  induction l with
-  | nil => simp [dedupInts]
-  | cons x xs ih =>
-    simp only [dedupInts]
-    split
-    · rename_i hx
-      rw [ih]
-      constructor
-      · intro h; exact mem_cons_of_mem _ h
-      · intro h
-        rcases mem_cons.mp h with rfl | h
-        · exact (ih_of hx)
-        · exact h
-    · simp [ih]
-where
-  ih_of {a : Int} {xs : List Int} (h : a ∈ dedupInts xs) : a ∈ xs := by
-    induction xs with
-    | nil => simp [dedupInts] at h
-    | cons y ys ih =>
-      simp only [dedupInts] at h
-      split at h
-      · exact mem_cons_of_mem _ (ih h)
-      · rcases mem_cons.mp h with rfl | h
-        · simp
-        · exact mem_cons_of_mem _ (ih h)
-
-/-- integers whose conversion is monotone, together with the non-NaN floats: the numeric kind -/
-def NumOK (ints : List Int) : Val → Prop
-  | .int a => a ∈ ints
-  | .flt b => F64.isNaN b = false
-  | _ => False
-
-theorem convMonotone_spec (ints : List Int) (h : convMonotone ints = true) :
-    (∀ a ∈ ints, F64.isNaN (F64.i64ToF64 a) = false) ∧
-    (∀ a ∈ ints, ∀ b ∈ ints, a < b → convKey a < convKey b) := by
-  unfold convMonotone at h
-  simp only [all_eq_true, mem_map, Bool.and_eq_true, Bool.not_eq_true', Bool.or_eq_true, decide_eq_true_eq,
-    forall_exists_index, and_imp, forall_apply_eq_imp_iff₂] at h
-  refine ⟨fun a ha => (h a ha).1, fun a ha b hb hab => ?_⟩
-  have := (h a ha).2 b hb
-  rcases this with h1 | h1
-  · simp at h1; omega
-  · exact h1
-
-/-- the value comparator on a numeric column -/
-theorem sortCmpVals_num_ok (ints : List Int) (h : convMonotone ints = true) :
-    OrdOK sortCmpVals (NumOK ints) := by
-  obtain ⟨hnan, hmono⟩ := convMonotone_spec ints h
-  apply OrdOK.of_rank sortCmpVals _ (fun v => match v with
-    | .int a => convKey a
-    | .flt b => F64.key b
-    | _ => 0)
-  intro a b ha hb
-  have cmpk : ∀ x y : Int, x ∈ ints → y ∈ ints → compare x y = compare (convKey x) (convKey y) := by
-    intro x y hx hy
-    rcases Int.lt_trichotomy x y with hh | hh | hh
-    · rw [Int.compare_eq_lt.mpr hh, Int.compare_eq_lt.mpr (hmono x hx y hy hh)]
-    · subst hh; rw [Int.compare_eq_eq.mpr rfl, Int.compare_eq_eq.mpr rfl]
-    · rw [Int.compare_eq_gt.mpr hh, Int.compare_eq_gt.mpr (hmono y hy x hx hh)]
-  cases a with
-  | null => exact absurd ha (by simp [NumOK])
-  | bool _ => exact absurd ha (by simp [NumOK])
-  | str _ => exact absurd ha (by simp [NumOK])
-  | int x =>
-    cases b with
-    | null => exact absurd hb (by simp [NumOK])
-    | bool _ => exact absurd hb (by simp [NumOK])
-    | str _ => exact absurd hb (by simp [NumOK])
-    | int y => exact cmpk x y ha hb
-    | flt y =>
-      have n1 := hnan x ha
-      have n2 : F64.isNaN y = false := hb
-      simp [sortCmpVals, F64.partialCmp, n1, n2, convKey]
-  | flt x =>
-    have n1 : F64.isNaN x = false := ha
-    cases b with
-    | null => exact absurd hb (by simp [NumOK])
-    | bool _ => exact absurd hb (by simp [NumOK])
-    | str _ => exact absurd hb (by simp [NumOK])
-    | int y =>
-      have n2 := hnan y hb
-      simp [sortCmpVals, F64.partialCmp, n1, n2, convKey]
-    | flt y =>
-      have n2 : F64.isNaN y = false := hb
-      simp [sortCmpVals, F64.partialCmp, n1, n2]
-
-theorem cmpWithNulls_some (nf : Bool) (a b : Val) :
-    cmpWithNulls nf (some a) (some b) =
-      if a = .null then (if b = .null then .eq else if nf then .lt else .gt)
-      else if b = .null then (if nf then .gt else .lt) else sortCmpVals a b := by
-  cases a <;> cases b <;> simp [cmpWithNulls]
-
-/-- the column value of a row: present, and NULL or in the set `S` of comparable values -/
-def ColOK (S : Val → Prop) (x : Option Val) : Prop := ∃ v, x = some v ∧ (v = .null ∨ S v)
-
-/-- `compare_values_with_nulls` on a column whose non-NULL values are mutually comparable: NULLs
-at one end, the values' order inside -/
-theorem cmpWithNulls_ok (nf : Bool) (S : Val → Prop) (hv : OrdOK sortCmpVals S) :
-    OrdOK (cmpWithNulls nf) (ColOK S) := by
-  have knd : ∀ v : Val, (v = .null ∨ S v) → v ≠ .null → S v := by
-    intro v h hn
-    rcases h with h | h
-    · exact absurd h hn
-    · exact h
-  refine ⟨?_, ?_, ?_⟩
-  · rintro _ _ ⟨a, rfl, ha⟩ ⟨b, rfl, hb⟩
-    rw [cmpWithNulls_some, cmpWithNulls_some]
-    by_cases a0 : a = .null <;> by_cases b0 : b = .null
-    · simp [a0, b0, flipOrd]
-    · simp [a0, b0]; cases nf <;> rfl
-    · simp [a0, b0]; cases nf <;> rfl
-    · simp only [a0, b0, if_false]
-      exact hv.flip a b (knd a ha a0) (knd b hb b0)
-  · rintro _ _ _ ⟨a, rfl, ha⟩ ⟨b, rfl, hb⟩ ⟨c, rfl, hc⟩
-    rw [cmpWithNulls_some, cmpWithNulls_some, cmpWithNulls_some]
-    by_cases a0 : a = .null <;> by_cases b0 : b = .null <;> by_cases c0 : c = .null <;>
-      simp only [a0, b0, c0, if_true, if_false] <;> try (cases nf <;> simp)
-    exact hv.ltlt a b c (knd a ha a0) (knd b hb b0) (knd c hc c0)
-  · rintro _ _ _ ⟨a, rfl, ha⟩ ⟨b, rfl, hb⟩ ⟨c, rfl, hc⟩
-    rw [cmpWithNulls_some, cmpWithNulls_some, cmpWithNulls_some]
-    by_cases a0 : a = .null <;> by_cases b0 : b = .null <;> by_cases c0 : c = .null <;>
-      simp only [a0, b0, c0, if_true, if_false] <;> try (cases nf <;> simp)
-    exact hv.eql a b c (knd a ha a0) (knd b hb b0) (knd c hc c0)
-
-theorem const_eq_ok {γ : Type} (S : γ → Prop) : OrdOK (fun _ _ : γ => Ordering.eq) S :=
-  ⟨fun _ _ _ _ => rfl, fun _ _ _ _ _ _ h _ => h, fun _ _ _ _ _ _ _ => rfl⟩
-
-/-- one sort key on rows whose key column holds mutually comparable values -/
-theorem keyCmp_ok (k : SortKey) (S : Val → Prop) (hv : OrdOK sortCmpVals S) :
-    OrdOK (keyCmp k) (fun r : Row => ColOK S r[k.col]?) := by
-  have h := (cmpWithNulls_ok k.nullsFirst S hv).comap (fun r : Row => r[k.col]?)
-  cases hasc : k.asc with
-  | true =>
-    have e : keyCmp k = fun a b => cmpWithNulls k.nullsFirst a[k.col]? b[k.col]? := by
-      funext a b; simp [keyCmp, hasc]
-    rw [e]; exact h
-  | false =>
-    have e : keyCmp k = fun a b => flipOrd (cmpWithNulls k.nullsFirst a[k.col]? b[k.col]?) := by
-      funext a b; simp [keyCmp, hasc]
-    rw [e]; exact h.flipped
-
-/-- one sort key on rows none of which has the key column -/
-theorem keyCmp_absent_ok (k : SortKey) : OrdOK (keyCmp k) (fun r : Row => r[k.col]? = none) := by
-  have e : ∀ a b : Row, a[k.col]? = none → b[k.col]? = none → keyCmp k a b = .eq := by
-    intro a b ha hb
-    unfold keyCmp
-    rw [ha, hb]
-    cases k.asc <;> rfl
-  refine ⟨?_, ?_, ?_⟩
-  · intro a b ha hb; rw [e a b ha hb, e b a hb ha]; rfl
-  · intro a b c ha hb _ h1 _; rw [e a b ha hb] at h1; exact absurd h1 (by simp)
-  · intro a b c ha hb hc _; rw [e a c ha hc, e b c hb hc]
-
-/-- all keys together: the lexicographic comparison of `sort_by`'s closure -/
-theorem cmpRows_ok (keys : List SortKey) (S : Row → Prop)
-    (h : ∀ k ∈ keys, OrdOK (keyCmp k) S) : OrdOK (cmpRows keys) S := by
-  induction keys with
-  | nil =>
-    have e : cmpRows [] = fun _ _ => Ordering.eq := by funext a b; rfl
-    rw [e]; exact const_eq_ok S
-  | cons k ks ih =>
-    have e : cmpRows (k :: ks) = fun a b => if keyCmp k a b = .eq then cmpRows ks a b else keyCmp k a b := by
-      funext a b; rfl
-    rw [e]
-    exact (h k (by simp)).lex (ih (fun k' hk' => h k' (by simp [hk'])))
-
-theorem orderedKeys_ok (keys : List SortKey) (rows : List Row) (h : orderedKeys keys rows = true) :
-    OrdOK (cmpRows keys) (fun r => r ∈ rows) := by
-  apply cmpRows_ok
-  intro k hk
-  unfold orderedKeys at h
-  have hk' := (all_eq_true.mp h) k hk
-  simp only [Bool.or_eq_true] at hk'
-  rcases hk' with (habs | huni) | hnum
-  · -- the column is absent
-    refine (keyCmp_absent_ok k).mono ?_
-    intro r hr
-    have := (all_eq_true.mp habs) r hr
-    simpa using this
-  · -- one kind
-    obtain ⟨K, hKm, hK⟩ := any_eq_true.mp huni
-    have hK0 : K ≠ 0 := by simp at hKm; omega
-    refine (keyCmp_ok k _ (sortCmpVals_ok K)).mono ?_
-    intro r hr
-    have := (all_eq_true.mp hK) r hr
-    cases hv : r[k.col]? with
-    | none => simp [hv] at this
-    | some v =>
-      simp only [hv, Bool.or_eq_true, beq_iff_eq] at this
-      refine ⟨v, rfl, ?_⟩
-      rcases this with h0 | hK'
-      · exact Or.inl ((kind1_eq_zero v).mp h0)
-      · exact Or.inr ⟨hK', hK0⟩
-  · -- numeric
-    unfold numericCol at hnum
-    simp only [Bool.and_eq_true] at hnum
-    refine (keyCmp_ok k _ (sortCmpVals_num_ok (colInts k.col rows) hnum.2)).mono ?_
-    intro r hr
-    have := (all_eq_true.mp hnum.1) r hr
-    cases hv : r[k.col]? with
-    | none => simp [hv] at this
-    | some v =>
-      refine ⟨v, rfl, ?_⟩
-      cases v with
-      | null => exact Or.inl rfl
-      | bool _ => simp [hv] at this
-      | str _ => simp [hv] at this
-      | flt b => simp [hv] at this; exact Or.inr this
-      | int a =>
-        refine Or.inr ?_
-        show a ∈ colInts k.col rows
-        unfold colInts
-        rw [mem_dedupInts]
-        exact mem_filterMap.mpr ⟨r, hr, by simp [hv]⟩
-
-/-- P: on tables that satisfy `orderedKeys` (every key column absent, of one kind, or numeric with
-order-preserving conversions) the engine's comparator is a total preorder: transitive … -/
-theorem c11b_rowLe_trans_ordered_partial (keys : List SortKey) (rows : List Row) (h : orderedKeys keys rows = true) :
-    TransOn (rowLe keys) rows := by
-  intro a ha b hb c hc h1 h2
-  have ok := orderedKeys_ok keys rows h
-  unfold rowLe at h1 h2 ⊢
-  simp only [bne_iff_ne, ne_eq] at h1 h2 ⊢
-  exact ok.le_trans a b c ha hb hc h1 h2
-
-/-- … and total. -/
-theorem c11b_rowLe_total_ordered_partial (keys : List SortKey) (rows : List Row) (h : orderedKeys keys rows = true) :
-    TotalOn (rowLe keys) rows := by
-  intro a ha b hb
-  have ok := orderedKeys_ok keys rows h
-  unfold rowLe
-  rw [ok.flip a b ha hb]
-  cases cmpRows keys a b <;> simp [flipOrd]
-
-/-- P: ORDER BY over a table that satisfies `orderedKeys` returns THE stable sorted permutation:
-a permutation of the input, sorted under the engine's comparator, rows with equal keys in input
-order — for every chunking. -/
-theorem c11b_sort_sorted_stable_ordered_partial (cap : Nat) (hc : 0 < cap) (keys : List SortKey) (cs : List (List Row))
-    (h : orderedKeys keys cs.flatten = true) :
-    (sortOp cap keys cs).flatten.Perm cs.flatten ∧
-    (sortOp cap keys cs).flatten.Pairwise (fun a b => rowLe keys a b = true) ∧
-    ∀ a ∈ cs.flatten, (sortOp cap keys cs).flatten.filter (fun x => rowLe keys a x && rowLe keys x a) =
-      cs.flatten.filter (fun x => rowLe keys a x && rowLe keys x a) :=
-  ⟨c11b_sort_perm cap hc keys cs,
-   c11b_sort_sorted_partial cap hc keys cs (c11b_rowLe_trans_ordered_partial keys _ h) (c11b_rowLe_total_ordered_partial keys _ h),
-   fun a ha => c11b_sort_stable_partial cap hc keys cs (c11b_rowLe_trans_ordered_partial keys _ h)
-     (c11b_rowLe_total_ordered_partial keys _ h) a ha⟩
-
-theorem partialCmp_getD_flip (a b : Nat) :
-    (F64.partialCmp b a).getD .eq = flipOrd ((F64.partialCmp a b).getD .eq) := by
-  unfold F64.partialCmp
-  by_cases na : F64.isNaN a = true <;> by_cases nb : F64.isNaN b = true
-  · simp [na, nb, flipOrd]
-  · simp [na, nb, flipOrd]
-  · simp [na, nb, flipOrd]
-  · simp only [na, nb, Bool.or_self, Bool.false_eq_true, if_false, Option.getD_some]
-    exact cmpInt_flip _ _
-
-/-- the value comparator is antisymmetric on all values -/
-theorem sortCmpVals_flip (a b : Val) : sortCmpVals b a = flipOrd (sortCmpVals a b) := by
-  cases a with
-  | null => cases b <;> rfl
-  | bool x =>
-    cases b with
-    | bool y => cases x <;> cases y <;> decide
-    | _ => rfl
-  | int x =>
-    cases b with
-    | int y => exact cmpInt_flip x y
-    | flt y => exact partialCmp_getD_flip _ _
-    | _ => rfl
-  | flt x =>
-    cases b with
-    | flt y => exact partialCmp_getD_flip _ _
-    | int y => exact partialCmp_getD_flip _ _
-    | _ => rfl
-  | str x =>
-    cases b with
-    | str y => exact cmpBytes_flip x y
-    | _ => rfl
-
-theorem cmpWithNulls_flip (nf : Bool) (x y : Option Val) (h : x.isSome = y.isSome) :
-    cmpWithNulls nf y x = flipOrd (cmpWithNulls nf x y) := by
-  cases x with
-  | none =>
-    cases y with
-    | none => rfl
-    | some _ => simp at h
-  | some a =>
-    cases y with
-    | none => simp at h
-    | some b =>
-      rw [cmpWithNulls_some, cmpWithNulls_some]
-      by_cases a0 : a = .null <;> by_cases b0 : b = .null
-      · simp [a0, b0, flipOrd]
-      · simp [a0, b0]; cases nf <;> rfl
-      · simp [a0, b0]; cases nf <;> rfl
-      · simp only [a0, b0, if_false]; exact sortCmpVals_flip a b
-
-theorem cmpRows_flip (keys : List SortKey) (a b : Row)
-    (h : ∀ k ∈ keys, (a[k.col]?).isSome = (b[k.col]?).isSome) :
-    cmpRows keys b a = flipOrd (cmpRows keys a b) := by
-  induction keys with
-  | nil => rfl
-  | cons k ks ih =>
-    have hk : keyCmp k b a = flipOrd (keyCmp k a b) := by
-      unfold keyCmp
-      simp only
-      rw [cmpWithNulls_flip k.nullsFirst _ _ (h k (by simp))]
-      cases k.asc <;> simp
-    simp only [cmpRows]
-    rw [hk, ih (fun k' hk' => h k' (by simp [hk']))]
-    cases keyCmp k a b <;> simp [flipOrd]
-
-/-- F: the engine's row comparator is total — any two rows that have the same columns (as all
-rows of the chunks of one operator do) compare one way or the other — for every list of keys and
-all values. -/
-theorem c11b_rowLe_total (keys : List SortKey) (a b : Row)
-    (h : ∀ k ∈ keys, (a[k.col]?).isSome = (b[k.col]?).isSome) :
-    (rowLe keys a b || rowLe keys b a) = true := by
-  unfold rowLe
-  rw [cmpRows_flip keys a b h]
-  cases cmpRows keys a b <;> simp [flipOrd]
-
-/-- W: it is NOT transitive across kinds: values of different kinds compare "equal", so
-`2 ≤ 'a' ≤ 1` although `2 > 1`. -/
-theorem c11b_rowLe_not_transitive_mixed_kinds_witness :
-    let k : List SortKey := [⟨0, true, false⟩]
-    rowLe k [.int 2] [.str [97]] = true ∧ rowLe k [.str [97]] [.int 1] = true ∧ rowLe k [.int 2] [.int 1] = false := by
-  decide
-
-/-- W: nor with NaN among floats (NaN compares "equal" to every number): `2.0 ≤ NaN ≤ 1.0`. -/
-theorem c11b_rowLe_not_transitive_nan_witness :
-    let k : List SortKey := [⟨0, true, false⟩]
-    rowLe k [.flt 0x4000000000000000] [.flt 0x7ff8000000000000] = true ∧
-    rowLe k [.flt 0x7ff8000000000000] [.flt 0x3ff0000000000000] = true ∧
-    rowLe k [.flt 0x4000000000000000] [.flt 0x3ff0000000000000] = false := by
-  decide
-
-/-- W: nor between integers beyond 2^53 and floats (`i64 as f64` rounds): 2^53+1 ≤ 2^53 (as
-float) ≤ 2^53 although 2^53+1 > 2^53. -/
-theorem c11b_rowLe_not_transitive_int_float_witness :
-    let k : List SortKey := [⟨0, true, false⟩]
-    rowLe k [.int 9007199254740993] [.flt 0x4340000000000000] = true ∧
-    rowLe k [.flt 0x4340000000000000] [.int 9007199254740992] = true ∧
-    rowLe k [.int 9007199254740993] [.int 9007199254740992] = false := by
-  decide
-
-/-- W: what comes out then is not sorted: `sort_by` (an insertion sort up to 20 rows) leaves
-`2, 'a', 1` as it is, while every total order of all values that sorts numbers by value puts 1
-before 2 (the specification's: `'a', 1, 2`). -/
-theorem c11b_sort_mixed_kinds_unsorted_witness :
-    sortRows [⟨0, true, false⟩] [[.int 2], [.str [97]], [.int 1]] = some [[.int 2], [.str [97]], [.int 1]] ∧
-    orderedKeys [⟨0, true, false⟩] [[.int 2], [.str [97]], [.int 1]] = false := by
-  decide
-
-set_option exponentiation.threshold 3000 in
-theorem c11b_sort_mixed_kinds_spec_order :
-    ([[.int 2], [.str [97]], [.int 1]] : List Row).mergeSort (specRowLe [⟨0, true, false⟩]) =
-      [[.str [97]], [.int 1], [.int 2]] := by
-  simp [List.mergeSort, List.MergeSort.Internal.splitInTwo, specRowLe, specCmpRows, specKeyCmp,
-    specCmpWithNulls, specCmpVals, specRank]
-
-/-- N: non-vacuity of the sort theorems — two keys, the first descending (the null order is
-applied before the direction: "nulls first" of a descending key puts them last), equal keys in
-input order (the third column tells the rows apart), three input chunks, output chunks of 2. -/
-theorem c11b_sort_nonvacuous :
-    orderedKeys [⟨0, false, true⟩, ⟨1, true, false⟩]
-      [[.int 1, .str [98], .int 0], [.null, .str [97], .int 1], [.int 2, .str [97], .int 2],
-       [.int 1, .str [97], .int 3], [.int 2, .str [97], .int 4]] = true ∧
-    sortOp 2 [⟨0, false, true⟩, ⟨1, true, false⟩]
-      [[[.int 1, .str [98], .int 0], [.null, .str [97], .int 1]], [],
-       [[.int 2, .str [97], .int 2], [.int 1, .str [97], .int 3], [.int 2, .str [97], .int 4]]] =
-      [[[.int 2, .str [97], .int 2], [.int 2, .str [97], .int 4]],
-       [[.int 1, .str [97], .int 3], [.int 1, .str [98], .int 0]], [[.null, .str [97], .int 1]]] := by
-  refine ⟨by decide, ?_⟩
-  simp [sortOp, rechunkAll, rechunk, List.mergeSort, List.MergeSort.Internal.splitInTwo, rowLe,
-    cmpRows, keyCmp, cmpWithNulls, sortCmpVals, flipOrd, cmpBytes, compare, compareOfLessAndEq]
-
 /-! ### the specification's order of all values is a total preorder -/
 
 theorem tripleCmp_ok : OrdOK (fun (x y : Nat × Int × List Nat) =>
@@ -1368,90 +1014,575 @@ theorem tripleCmp_ok : OrdOK (fun (x y : Nat × Int × List Nat) =>
 theorem specCmpVals_ok : OrdOK specCmpVals (fun _ => True) :=
   tripleCmp_ok.comap specRank
 
-theorem specCmpWithNulls_some (nf : Bool) (a b : Val) :
-    specCmpWithNulls nf (some a) (some b) =
-      if a = .null then (if b = .null then .eq else if nf then .lt else .gt)
-      else if b = .null then (if nf then .gt else .lt) else specCmpVals a b := by
-  cases a <;> cases b <;> simp [specCmpWithNulls]
 
-theorem specCmpWithNulls_ok (nf : Bool) : OrdOK (specCmpWithNulls nf) (fun x => x.isSome = true) := by
-  have hv := specCmpVals_ok
+/-! ### generic: NULL placement, one key, all keys — over any value comparison -/
+
+theorem const_eq_ok {γ : Type} (S : γ → Prop) : OrdOK (fun _ _ : γ => Ordering.eq) S :=
+  ⟨fun _ _ _ _ => rfl, fun _ _ _ _ _ _ h _ => h, fun _ _ _ _ _ _ _ => rfl⟩
+
+theorem OrdOK.congr {cmp cmp' : β → β → Ordering} {S : β → Prop} (h : OrdOK cmp' S)
+    (e : ∀ a b, S a → S b → cmp a b = cmp' a b) : OrdOK cmp S where
+  flip a b ha hb := by rw [e b a hb ha, e a b ha hb]; exact h.flip a b ha hb
+  ltlt a b c ha hb hc h1 h2 := by
+    rw [e a b ha hb] at h1; rw [e b c hb hc] at h2; rw [e a c ha hc]; exact h.ltlt a b c ha hb hc h1 h2
+  eql a b c ha hb hc h1 := by
+    rw [e a b ha hb] at h1; rw [e a c ha hc, e b c hb hc]; exact h.eql a b c ha hb hc h1
+
+theorem nullsCmp_some (cmpv : Val → Val → Ordering) (nf : Bool) (a b : Val) :
+    nullsCmp cmpv nf (some a) (some b) =
+      if a = .null then (if b = .null then .eq else if nf then .lt else .gt)
+      else if b = .null then (if nf then .gt else .lt) else cmpv a b := by
+  cases a <;> cases b <;> simp [nullsCmp]
+
+/-- the column value of a row: present, and NULL or in the set `S` of comparable values -/
+def ColOK (S : Val → Prop) (x : Option Val) : Prop := ∃ v, x = some v ∧ (v = .null ∨ S v)
+
+/-- `compare_values_with_nulls`: NULLs at one end, the values' order inside -/
+theorem nullsCmp_ok (cmpv : Val → Val → Ordering) (nf : Bool) (S : Val → Prop) (hv : OrdOK cmpv S) :
+    OrdOK (nullsCmp cmpv nf) (ColOK S) := by
+  have knd : ∀ v : Val, (v = .null ∨ S v) → v ≠ .null → S v := by
+    intro v h hn
+    rcases h with h | h
+    · exact absurd h hn
+    · exact h
   refine ⟨?_, ?_, ?_⟩
-  · intro x y hx hy
-    obtain ⟨a, rfl⟩ := Option.isSome_iff_exists.mp hx
-    obtain ⟨b, rfl⟩ := Option.isSome_iff_exists.mp hy
-    rw [specCmpWithNulls_some, specCmpWithNulls_some]
+  · rintro _ _ ⟨a, rfl, ha⟩ ⟨b, rfl, hb⟩
+    rw [nullsCmp_some, nullsCmp_some]
     by_cases a0 : a = .null <;> by_cases b0 : b = .null
     · simp [a0, b0, flipOrd]
     · simp [a0, b0]; cases nf <;> rfl
     · simp [a0, b0]; cases nf <;> rfl
-    · simp only [a0, b0, if_false]; exact hv.flip a b trivial trivial
-  · intro x y z hx hy hz
-    obtain ⟨a, rfl⟩ := Option.isSome_iff_exists.mp hx
-    obtain ⟨b, rfl⟩ := Option.isSome_iff_exists.mp hy
-    obtain ⟨c, rfl⟩ := Option.isSome_iff_exists.mp hz
-    rw [specCmpWithNulls_some, specCmpWithNulls_some, specCmpWithNulls_some]
+    · simp only [a0, b0, if_false]
+      exact hv.flip a b (knd a ha a0) (knd b hb b0)
+  · rintro _ _ _ ⟨a, rfl, ha⟩ ⟨b, rfl, hb⟩ ⟨c, rfl, hc⟩
+    rw [nullsCmp_some, nullsCmp_some, nullsCmp_some]
     by_cases a0 : a = .null <;> by_cases b0 : b = .null <;> by_cases c0 : c = .null <;>
       simp only [a0, b0, c0, if_true, if_false] <;> try (cases nf <;> simp)
-    exact hv.ltlt a b c trivial trivial trivial
-  · intro x y z hx hy hz
-    obtain ⟨a, rfl⟩ := Option.isSome_iff_exists.mp hx
-    obtain ⟨b, rfl⟩ := Option.isSome_iff_exists.mp hy
-    obtain ⟨c, rfl⟩ := Option.isSome_iff_exists.mp hz
-    rw [specCmpWithNulls_some, specCmpWithNulls_some, specCmpWithNulls_some]
+    exact hv.ltlt a b c (knd a ha a0) (knd b hb b0) (knd c hc c0)
+  · rintro _ _ _ ⟨a, rfl, ha⟩ ⟨b, rfl, hb⟩ ⟨c, rfl, hc⟩
+    rw [nullsCmp_some, nullsCmp_some, nullsCmp_some]
     by_cases a0 : a = .null <;> by_cases b0 : b = .null <;> by_cases c0 : c = .null <;>
       simp only [a0, b0, c0, if_true, if_false] <;> try (cases nf <;> simp)
-    exact hv.eql a b c trivial trivial trivial
+    exact hv.eql a b c (knd a ha a0) (knd b hb b0) (knd c hc c0)
 
-theorem specCmpRows_ok (keys : List SortKey) :
-    OrdOK (specCmpRows keys) (fun r : Row => ∀ k ∈ keys, (r[k.col]?).isSome = true) := by
+/-- one sort key on rows that all have the key column -/
+theorem keyCmpBy_ok (cmpv : Val → Val → Ordering) (k : SortKey) (S : Val → Prop) (hv : OrdOK cmpv S) :
+    OrdOK (keyCmpBy cmpv k) (fun r : Row => ColOK S r[k.col]?) := by
+  have h := (nullsCmp_ok cmpv k.nullsFirst S hv).comap (fun r : Row => r[k.col]?)
+  cases hasc : k.asc with
+  | true =>
+    have e : keyCmpBy cmpv k = fun a b => nullsCmp cmpv k.nullsFirst a[k.col]? b[k.col]? := by
+      funext a b; simp [keyCmpBy, hasc]
+    rw [e]; exact h
+  | false =>
+    have e : keyCmpBy cmpv k = fun a b => flipOrd (nullsCmp cmpv k.nullsFirst a[k.col]? b[k.col]?) := by
+      funext a b; simp [keyCmpBy, hasc]
+    rw [e]; exact h.flipped
+
+/-- one sort key on rows none of which has the key column -/
+theorem keyCmpBy_absent_ok (cmpv : Val → Val → Ordering) (k : SortKey) :
+    OrdOK (keyCmpBy cmpv k) (fun r : Row => r[k.col]? = none) := by
+  have e : ∀ a b : Row, a[k.col]? = none → b[k.col]? = none → keyCmpBy cmpv k a b = .eq := by
+    intro a b ha hb
+    unfold keyCmpBy
+    rw [ha, hb]
+    cases k.asc <;> rfl
+  refine ⟨?_, ?_, ?_⟩
+  · intro a b ha hb; rw [e a b ha hb, e b a hb ha]; rfl
+  · intro a b c ha hb _ h1 _; rw [e a b ha hb] at h1; exact absurd h1 (by simp)
+  · intro a b c ha hb hc _; rw [e a c ha hc, e b c hb hc]
+
+/-- all keys together: the lexicographic comparison of `sort_by`'s closure -/
+theorem cmpRowsBy_ok (cmpv : Val → Val → Ordering) (keys : List SortKey) (S : Row → Prop)
+    (h : ∀ k ∈ keys, OrdOK (keyCmpBy cmpv k) S) : OrdOK (cmpRowsBy cmpv keys) S := by
   induction keys with
   | nil =>
-    have e : specCmpRows [] = fun _ _ => Ordering.eq := by funext a b; rfl
-    rw [e]; exact const_eq_ok _
+    have e : cmpRowsBy cmpv [] = fun _ _ => Ordering.eq := by funext a b; rfl
+    rw [e]; exact const_eq_ok S
   | cons k ks ih =>
-    have e : specCmpRows (k :: ks) =
-        fun a b => if specKeyCmp k a b = .eq then specCmpRows ks a b else specKeyCmp k a b := by
+    have e : cmpRowsBy cmpv (k :: ks) =
+        fun a b => if keyCmpBy cmpv k a b = .eq then cmpRowsBy cmpv ks a b else keyCmpBy cmpv k a b := by
       funext a b; rfl
     rw [e]
-    have hk : OrdOK (specKeyCmp k) (fun r : Row => (r[k.col]?).isSome = true) := by
-      have h := (specCmpWithNulls_ok k.nullsFirst).comap (fun r : Row => r[k.col]?)
-      cases hasc : k.asc with
-      | true =>
-        have e : specKeyCmp k = fun a b => specCmpWithNulls k.nullsFirst a[k.col]? b[k.col]? := by
-          funext a b; simp [specKeyCmp, hasc]
-        rw [e]; exact h
-      | false =>
-        have e : specKeyCmp k = fun a b => flipOrd (specCmpWithNulls k.nullsFirst a[k.col]? b[k.col]?) := by
-          funext a b; simp [specKeyCmp, hasc]
-        rw [e]; exact h.flipped
-    exact (hk.mono (fun r hr => hr k (by simp))).lex (ih.mono (fun r hr k' hk' => hr k' (by simp [hk'])))
+    exact (h k (by simp)).lex (ih (fun k' hk' => h k' (by simp [hk'])))
 
-/-- F: the specification's ORDER BY comparator (strings < booleans < numbers by exact value < NaN,
-NULLs at the end the key asks for) is a total preorder on ALL rows that have the key columns —
-values of every kind mixed: it is a legitimate meaning of "the ordered result". -/
-theorem c11b_spec_order_total_preorder (keys : List SortKey) (rows : List Row)
-    (h : ∀ r ∈ rows, ∀ k ∈ keys, (r[k.col]?).isSome = true) :
+/-- a row of a table of width `w` whose integers are `i64`s — what the chunks of one operator hold -/
+def RowOK (w : Nat) (r : Row) : Prop := r.length = w ∧ ∀ v ∈ r, v.inRange = true
+
+/-- a value comparison that is a linear-preorder comparison on the non-NULL `i64`/float/string/
+boolean values makes the row comparison one on the rows of any table -/
+theorem cmpRowsBy_ok_table (cmpv : Val → Val → Ordering)
+    (hv : OrdOK cmpv (fun v => v ≠ .null ∧ v.inRange = true)) (keys : List SortKey) (w : Nat) :
+    OrdOK (cmpRowsBy cmpv keys) (RowOK w) := by
+  apply cmpRowsBy_ok
+  intro k _
+  by_cases hk : k.col < w
+  · refine (keyCmpBy_ok cmpv k _ hv).mono ?_
+    intro r ⟨hl, hr⟩
+    have hlt : k.col < r.length := by omega
+    refine ⟨r[k.col], by simp [hlt], ?_⟩
+    by_cases h0 : r[k.col] = .null
+    · exact Or.inl h0
+    · exact Or.inr ⟨h0, hr _ (getElem_mem hlt)⟩
+  · refine (keyCmpBy_absent_ok cmpv k).mono ?_
+    intro r ⟨hl, _⟩
+    exact getElem?_eq_none (by omega)
+
+/-! ### binary64: the order of `partial_cmp` is the order of the exact values -/
+
+section Floats
+open Grafeo.F64
+theorem mag_eq (b : Nat) : mag b = fracField b + 2 ^ 52 * expField b := by
+  unfold mag fracField expField
+  have h : (2 : Nat) ^ 63 = 2 ^ 52 * 2 ^ 11 := by decide
+  rw [h, Nat.mod_mul]
+
+theorem frac_lt (b : Nat) : fracField b < 2 ^ 52 := Nat.mod_lt _ (by decide)
+theorem exp_le (b : Nat) : expField b ≤ 2047 := by
+  have : expField b < 2 ^ 11 := Nat.mod_lt _ (by decide)
+  omega
+
+/-- magnitude in units as a function of the two fields -/
+def numMag (e f : Nat) : Nat := if e = 2047 then 2 ^ 4000 else if e = 0 then f else (2 ^ 52 + f) * 2 ^ (e - 1)
+
+theorem fnumMag_eq (b : Nat) : fnumMag b = numMag (expField b) (fracField b) := by
+  unfold fnumMag numMag scaledMag
+  rfl
+
+theorem numMag_upper (e f : Nat) (hf : f < 2 ^ 52) (he : e ≠ 2047) : numMag e f < 2 ^ (52 + e) := by
+  unfold numMag
+  rw [if_neg he]
+  split
+  · rename_i h0; subst h0; simpa using hf
+  · rename_i h0
+    have h1 : 52 + e = 53 + (e - 1) := by omega
+    rw [h1, Nat.pow_add]
+    apply Nat.mul_lt_mul_of_pos_right
+    · have : (2 : Nat) ^ 53 = 2 ^ 52 + 2 ^ 52 := by decide
+      omega
+    · exact Nat.two_pow_pos _
+
+set_option exponentiation.threshold 5000 in
+theorem numMag_lower (e f : Nat) (he : 1 ≤ e) : 2 ^ (51 + e) ≤ numMag e f := by
+  unfold numMag
+  split
+  · rename_i h; subst h
+    exact Nat.pow_le_pow_right (by decide) (by omega)
+  · rw [if_neg (by omega)]
+    have h1 : 51 + e = 52 + (e - 1) := by omega
+    rw [h1, Nat.pow_add]
+    apply Nat.mul_le_mul_right
+    omega
+
+theorem numMag_lt (e f e' f' : Nat) (hf : f < 2 ^ 52) (hf' : f' < 2 ^ 52) (he' : e' ≤ 2047)
+    (hn : e = 2047 → f = 0) (hn' : e' = 2047 → f' = 0)
+    (h : f + 2 ^ 52 * e < f' + 2 ^ 52 * e') : numMag e f < numMag e' f' := by
+  have hc : e < e' ∨ (e = e' ∧ f < f') := by omega
+  rcases hc with hlt | ⟨heq, hff⟩
+  · have h1 := numMag_upper e f hf (by omega)
+    have h2 := numMag_lower e' f' (by omega)
+    have h3 : 2 ^ (52 + e) ≤ 2 ^ (51 + e') := Nat.pow_le_pow_right (by decide) (by omega)
+    omega
+  · subst heq
+    have he : e ≠ 2047 := by
+      intro h; have := hn h; have := hn' h; omega
+    unfold numMag
+    rw [if_neg he, if_neg he]
+    split
+    · exact hff
+    · apply Nat.mul_lt_mul_of_pos_right (by omega) (Nat.two_pow_pos _)
+
+theorem nonNaN_frac (b : Nat) (h : isNaN b = false) : expField b = 2047 → fracField b = 0 := by
+  intro he
+  unfold isNaN at h
+  simp [he] at h
+  exact h
+
+theorem fmag_mono (a b : Nat) (na : isNaN a = false) (nb : isNaN b = false) (h : mag a < mag b) :
+    fnumMag a < fnumMag b := by
+  rw [fnumMag_eq, fnumMag_eq]
+  rw [mag_eq, mag_eq] at h
+  exact numMag_lt _ _ _ _ (frac_lt a) (frac_lt b) (exp_le b) (nonNaN_frac a na) (nonNaN_frac b nb) h
+
+theorem fmag_eq (a b : Nat) (h : mag a = mag b) : fnumMag a = fnumMag b := by
+  rw [fnumMag_eq, fnumMag_eq]
+  rw [mag_eq, mag_eq] at h
+  have hf := frac_lt a
+  have hf' := frac_lt b
+  have : expField a = expField b ∧ fracField a = fracField b := by omega
+  rw [this.1, this.2]
+
+theorem fmag_zero (a : Nat) (h : mag a = 0) : fnumMag a = 0 := by
+  rw [fnumMag_eq]
+  rw [mag_eq] at h
+  have : expField a = 0 ∧ fracField a = 0 := by omega
+  rw [this.1, this.2]; rfl
+
+theorem fmag_pos (a : Nat) (na : isNaN a = false) (h : 0 < mag a) : 0 < fnumMag a := by
+  rw [fnumMag_eq]
+  rw [mag_eq] at h
+  have := numMag_lt 0 0 (expField a) (fracField a) (by decide) (frac_lt a) (exp_le a) (by intro h; omega)
+    (nonNaN_frac a na) (by omega)
+  have z : numMag 0 0 = 0 := rfl
+  omega
+
+/-- on non-NaN doubles the order of `partial_cmp` (sign–magnitude keys) is the order of the exact
+values -/
+theorem cmp_key_fnum (a b : Nat) (na : isNaN a = false) (nb : isNaN b = false) :
+    compare (key a) (key b) = compare (fnum a) (fnum b) := by
+  have m1 := fmag_mono a b na nb
+  have m2 := fmag_mono b a nb na
+  have m3 := fmag_eq a b
+  have za := fmag_zero a
+  have zb := fmag_zero b
+  have pa := fmag_pos a na
+  have pb := fmag_pos b nb
+  unfold key fnum
+  rcases Nat.lt_trichotomy (mag a) (mag b) with h | h | h
+  · have f := m1 h
+    by_cases sa : signBit a = 1 <;> by_cases sb : signBit b = 1 <;> simp only [sa, sb, if_true, if_false]
+    · rw [Int.compare_eq_gt.mpr (by omega), Int.compare_eq_gt.mpr (by omega)]
+    · have : 0 < fnumMag b := pb (by omega)
+      rw [Int.compare_eq_lt.mpr (by omega), Int.compare_eq_lt.mpr (by omega)]
+    · have : 0 < fnumMag b := pb (by omega)
+      rw [Int.compare_eq_gt.mpr (by omega), Int.compare_eq_gt.mpr (by omega)]
+    · rw [Int.compare_eq_lt.mpr (by omega), Int.compare_eq_lt.mpr (by omega)]
+  · have f := m3 h
+    by_cases sa : signBit a = 1 <;> by_cases sb : signBit b = 1 <;> simp only [sa, sb, if_true, if_false]
+    · rw [Int.compare_eq_eq.mpr (by omega), Int.compare_eq_eq.mpr (by omega)]
+    · by_cases z : mag a = 0
+      · have := za z; have := zb (by omega)
+        rw [Int.compare_eq_eq.mpr (by omega), Int.compare_eq_eq.mpr (by omega)]
+      · have := pa (by omega); have := pb (by omega)
+        rw [Int.compare_eq_lt.mpr (by omega), Int.compare_eq_lt.mpr (by omega)]
+    · by_cases z : mag a = 0
+      · have := za z; have := zb (by omega)
+        rw [Int.compare_eq_eq.mpr (by omega), Int.compare_eq_eq.mpr (by omega)]
+      · have := pa (by omega); have := pb (by omega)
+        rw [Int.compare_eq_gt.mpr (by omega), Int.compare_eq_gt.mpr (by omega)]
+    · rw [Int.compare_eq_eq.mpr (by omega), Int.compare_eq_eq.mpr (by omega)]
+  · have f := m2 h
+    by_cases sa : signBit a = 1 <;> by_cases sb : signBit b = 1 <;> simp only [sa, sb, if_true, if_false]
+    · rw [Int.compare_eq_lt.mpr (by omega), Int.compare_eq_lt.mpr (by omega)]
+    · have : 0 < fnumMag a := pa (by omega)
+      rw [Int.compare_eq_lt.mpr (by omega), Int.compare_eq_lt.mpr (by omega)]
+    · have : 0 < fnumMag a := pa (by omega)
+      rw [Int.compare_eq_gt.mpr (by omega), Int.compare_eq_gt.mpr (by omega)]
+    · rw [Int.compare_eq_gt.mpr (by omega), Int.compare_eq_gt.mpr (by omega)]
+
+theorem unit_pos : 0 < unit := by unfold unit; exact Int.pow_pos (by decide)
+
+/-- `compare_int_float` compares an `i64` with a non-NaN double by their exact values -/
+theorem cmpIntFloat_exact (i : Int) (f : Nat) (hf : isNaN f = false) (hi : i64Min ≤ i ∧ i ≤ i64Max) :
+    cmpIntFloat i f =
+      (if i * unit < fnum f then Ordering.lt else if fnum f < i * unit then .gt else .eq) := by
+  have hP := unit_pos
+  unfold cmpIntFloat
+  simp only [hf, Bool.false_eq_true, if_false]
+  have lo : -(2 ^ 63 * unit) ≤ i * unit := by
+    have : (-(2 ^ 63) : Int) * unit ≤ i * unit :=
+      Int.mul_le_mul_of_nonneg_right (by unfold i64Min at hi; omega) (Int.le_of_lt hP)
+    rw [Int.neg_mul] at this; exact this
+  have hi' : i * unit < 2 ^ 63 * unit :=
+    Int.mul_lt_mul_of_pos_right (by unfold i64Max at hi; omega) hP
+  split
+  · rename_i h
+    rw [if_pos (by omega)]
+  · split
+    · rename_i h1 h2
+      rw [if_neg (by omega), if_pos (by omega)]
+    · rename_i h1 h2
+      have dec := Int.tdiv_mul_add_tmod (fnum f) unit
+      have ub := Int.tmod_lt_of_pos (fnum f) hP
+      have lb := Int.lt_tmod_of_pos (fnum f) hP
+      generalize hw : (fnum f).tdiv unit = whole at *
+      generalize hr : (fnum f).tmod unit = r at *
+      have frac : fnum f - whole * unit = r := by omega
+      simp only [frac]
+      by_cases c1 : i < whole
+      · have : (i + 1) * unit ≤ whole * unit := Int.mul_le_mul_of_nonneg_right (by omega) (Int.le_of_lt hP)
+        rw [Int.add_mul, Int.one_mul] at this
+        rw [if_pos c1, if_pos (by omega)]
+      · by_cases c2 : whole < i
+        · have : (whole + 1) * unit ≤ i * unit := Int.mul_le_mul_of_nonneg_right (by omega) (Int.le_of_lt hP)
+          rw [Int.add_mul, Int.one_mul] at this
+          rw [if_neg c1, if_pos c2, if_neg (by omega), if_pos (by omega)]
+        · have e : i = whole := by omega
+          subst e
+          rw [if_neg c1, if_neg c2]
+          by_cases p : 0 < r
+          · rw [if_pos p, if_pos (by omega)]
+          · by_cases n : r < 0
+            · rw [if_neg p, if_pos n, if_neg (by omega), if_pos (by omega)]
+            · rw [if_neg p, if_neg n, if_neg (by omega), if_neg (by omega)]
+
+theorem compare_eq_ite (x y : Int) :
+    compare x y = (if x < y then Ordering.lt else if y < x then .gt else .eq) := by
+  rcases Int.lt_trichotomy x y with h | h | h
+  · rw [Int.compare_eq_lt.mpr h, if_pos h]
+  · subst h; rw [Int.compare_eq_eq.mpr rfl, if_neg (Int.lt_irrefl _), if_neg (Int.lt_irrefl _)]
+  · rw [Int.compare_eq_gt.mpr h, if_neg (by omega), if_pos h]
+
+theorem specCmpVals_num (a b : Val) (x y : Int) (ha : specRank a = (2, x, [])) (hb : specRank b = (2, y, [])) :
+    specCmpVals a b = (if x < y then Ordering.lt else if y < x then .gt else .eq) := by
+  unfold specCmpVals
+  rw [ha, hb]
+  simp [cmpBytes]
+
+/-- the coded value comparison is the specification's, on all non-NULL `i64` / float / string /
+boolean values -/
+theorem sortCmpVals_eq_spec (a b : Val) (ha : a ≠ .null ∧ a.inRange = true) (hb : b ≠ .null ∧ b.inRange = true) :
+    sortCmpVals a b = specCmpVals a b := by
+  cases a with
+  | null => exact absurd rfl ha.1
+  | bool x =>
+    cases b with
+    | null => exact absurd rfl hb.1
+    | bool y => cases x <;> cases y <;> decide
+    | int y => simp [sortCmpVals, kindRank, specCmpVals, specRank] <;> decide
+    | str y => simp [sortCmpVals, kindRank, specCmpVals, specRank] <;> decide
+    | flt y =>
+      simp only [sortCmpVals, kindRank, specCmpVals, specRank]
+      split <;> simp <;> decide
+  | str x =>
+    cases b with
+    | null => exact absurd rfl hb.1
+    | bool y => simp [sortCmpVals, kindRank, specCmpVals, specRank] <;> decide
+    | int y => simp [sortCmpVals, kindRank, specCmpVals, specRank] <;> decide
+    | str y => simp [sortCmpVals, specCmpVals, specRank]
+    | flt y =>
+      simp only [sortCmpVals, kindRank, specCmpVals, specRank]
+      split <;> simp <;> decide
+  | int x =>
+    have hx : i64Min ≤ x ∧ x ≤ i64Max := by simpa [Val.inRange] using ha.2
+    cases b with
+    | null => exact absurd rfl hb.1
+    | bool y => simp [sortCmpVals, kindRank, specCmpVals, specRank] <;> decide
+    | str y => simp [sortCmpVals, kindRank, specCmpVals, specRank] <;> decide
+    | int y =>
+      simp only [sortCmpVals]
+      rw [specCmpVals_num _ _ (x * unit) (y * unit) rfl rfl, compare_eq_ite]
+      have hP := unit_pos
+      rcases Int.lt_trichotomy x y with h | h | h
+      · have := Int.mul_lt_mul_of_pos_right h hP
+        rw [if_pos h, if_pos this]
+      · subst h; simp
+      · have := Int.mul_lt_mul_of_pos_right h hP
+        rw [if_neg (by omega), if_pos h, if_neg (by omega), if_pos this]
+    | flt y =>
+      simp only [sortCmpVals]
+      by_cases ny : isNaN y = true
+      · simp [cmpIntFloat, specCmpVals, specRank, ny]
+      · have ny' : isNaN y = false := by simpa using ny
+        rw [cmpIntFloat_exact x y ny' hx]
+        have e : specRank (.flt y) = (2, fnum y, []) := by simp [specRank, ny']
+        rw [specCmpVals_num _ _ (x * unit) (fnum y) rfl e]
+  | flt x =>
+    cases b with
+    | null => exact absurd rfl hb.1
+    | bool y =>
+      simp only [sortCmpVals, kindRank, specCmpVals, specRank]
+      split <;> simp <;> decide
+    | str y =>
+      simp only [sortCmpVals, kindRank, specCmpVals, specRank]
+      split <;> simp <;> decide
+    | int y =>
+      have hy : i64Min ≤ y ∧ y ≤ i64Max := by simpa [Val.inRange] using hb.2
+      simp only [sortCmpVals]
+      by_cases nx : isNaN x = true
+      · simp [cmpIntFloat, specCmpVals, specRank, nx, flipOrd]
+      · have nx' : isNaN x = false := by simpa using nx
+        rw [cmpIntFloat_exact y x nx' hy]
+        have e : specRank (.flt x) = (2, fnum x, []) := by simp [specRank, nx']
+        rw [specCmpVals_num _ _ (fnum x) (y * unit) e rfl]
+        by_cases c1 : y * unit < fnum x
+        · rw [if_pos c1, if_neg (by omega), if_pos c1]; rfl
+        · by_cases c2 : fnum x < y * unit
+          · rw [if_neg c1, if_pos c2, if_pos c2]; rfl
+          · rw [if_neg c1, if_neg c2, if_neg c2, if_neg c1]; rfl
+    | flt y =>
+      simp only [sortCmpVals, cmpFloats, partialCmp]
+      by_cases nx : isNaN x = true <;> by_cases ny : isNaN y = true
+      · simp [specCmpVals, specRank, nx, ny, cmpBytes] <;> decide
+      · simp [specCmpVals, specRank, nx, ny] <;> decide
+      · simp [specCmpVals, specRank, nx, ny] <;> decide
+      · have nx' : isNaN x = false := by simpa using nx
+        have ny' : isNaN y = false := by simpa using ny
+        have e1 : specRank (.flt x) = (2, fnum x, []) := by simp [specRank, nx']
+        have e2 : specRank (.flt y) = (2, fnum y, []) := by simp [specRank, ny']
+        rw [specCmpVals_num _ _ (fnum x) (fnum y) e1 e2]
+        simp only [nx', ny', Bool.or_self, Bool.false_eq_true, if_false]
+        rw [cmp_key_fnum x y nx' ny', compare_eq_ite]
+
+end Floats
+
+/-! ### the coded comparator is the specification's; both are total preorders -/
+
+theorem sortCmpVals_ok : OrdOK sortCmpVals (fun v => v ≠ .null ∧ v.inRange = true) :=
+  (specCmpVals_ok.mono (fun _ _ => trivial)).congr (fun a b ha hb => sortCmpVals_eq_spec a b ha hb)
+
+theorem nullsCmp_congr (c1 c2 : Val → Val → Ordering) (nf : Bool) (x y : Option Val)
+    (h : ∀ a b, x = some a → y = some b → a ≠ .null → b ≠ .null → c1 a b = c2 a b) :
+    nullsCmp c1 nf x y = nullsCmp c2 nf x y := by
+  cases x with
+  | none => cases y <;> rfl
+  | some a =>
+    cases y with
+    | none => cases a <;> rfl
+    | some b =>
+      rw [nullsCmp_some, nullsCmp_some]
+      by_cases a0 : a = .null <;> by_cases b0 : b = .null <;> simp only [a0, b0, if_true, if_false]
+      exact h a b rfl rfl a0 b0
+
+/-- F: the engine's row comparison IS the specification's (strings < booleans < numbers by exact
+value < NaN; NULLs where the key asks), on all rows of `i64` / float / string / boolean / NULL
+values, for every list of keys. -/
+theorem c11b_cmpRows_eq_spec (keys : List SortKey) (a b : Row)
+    (ha : ∀ v ∈ a, v.inRange = true) (hb : ∀ v ∈ b, v.inRange = true) :
+    cmpRows keys a b = specCmpRows keys a b := by
+  unfold cmpRows specCmpRows
+  induction keys with
+  | nil => rfl
+  | cons k ks ih =>
+    have hk : keyCmpBy sortCmpVals k a b = keyCmpBy specCmpVals k a b := by
+      unfold keyCmpBy
+      simp only
+      rw [nullsCmp_congr sortCmpVals specCmpVals k.nullsFirst a[k.col]? b[k.col]?]
+      intro x y hx hy x0 y0
+      exact sortCmpVals_eq_spec x y ⟨x0, ha x (mem_of_getElem? hx)⟩ ⟨y0, hb y (mem_of_getElem? hy)⟩
+    simp only [cmpRowsBy]
+    rw [hk, ih]
+
+theorem c11b_rowLe_eq_spec (keys : List SortKey) (a b : Row)
+    (ha : ∀ v ∈ a, v.inRange = true) (hb : ∀ v ∈ b, v.inRange = true) :
+    rowLe keys a b = specRowLe keys a b := by
+  have := c11b_cmpRows_eq_spec keys a b ha hb
+  unfold cmpRows specCmpRows at this
+  unfold rowLe specRowLe rowLeBy
+  rw [this]
+
+/-- F: the engine's ORDER BY comparator is transitive on the rows of every table (rows of one
+width holding `i64`s, floats incl. NaN / ±0 / ±inf, strings, booleans, NULLs — kinds mixed at
+will), for every list of keys … -/
+theorem c11b_rowLe_trans (keys : List SortKey) (w : Nat) (rows : List Row) (h : ∀ r ∈ rows, RowOK w r) :
+    TransOn (rowLe keys) rows := by
+  intro a ha b hb c hc h1 h2
+  have ok := cmpRowsBy_ok_table sortCmpVals sortCmpVals_ok keys w
+  unfold rowLe rowLeBy at h1 h2 ⊢
+  simp only [bne_iff_ne, ne_eq] at h1 h2 ⊢
+  exact ok.le_trans a b c (h a ha) (h b hb) (h c hc) h1 h2
+
+/-- … and total. -/
+theorem c11b_rowLe_total (keys : List SortKey) (w : Nat) (rows : List Row) (h : ∀ r ∈ rows, RowOK w r) :
+    TotalOn (rowLe keys) rows := by
+  intro a ha b hb
+  have ok := cmpRowsBy_ok_table sortCmpVals sortCmpVals_ok keys w
+  unfold rowLe rowLeBy
+  rw [ok.flip a b (h a ha) (h b hb)]
+  cases cmpRowsBy sortCmpVals keys a b <;> simp [flipOrd]
+
+/-- F: ORDER BY returns THE stable sorted permutation of its input — a permutation, sorted under
+the engine's comparator, rows with equal keys in input order — for every table, every list of
+keys and every chunking. -/
+theorem c11b_sort_sorted_stable (cap : Nat) (hc : 0 < cap) (keys : List SortKey) (w : Nat)
+    (cs : List (List Row)) (h : ∀ r ∈ cs.flatten, RowOK w r) :
+    (sortOp cap keys cs).flatten.Perm cs.flatten ∧
+    (sortOp cap keys cs).flatten.Pairwise (fun a b => rowLe keys a b = true) ∧
+    ∀ a ∈ cs.flatten, (sortOp cap keys cs).flatten.filter (fun x => rowLe keys a x && rowLe keys x a) =
+      cs.flatten.filter (fun x => rowLe keys a x && rowLe keys x a) :=
+  ⟨c11b_sort_perm cap hc keys cs,
+   c11b_sort_sorted_partial cap hc keys cs (c11b_rowLe_trans keys w _ h) (c11b_rowLe_total keys w _ h),
+   fun a ha => c11b_sort_stable_partial cap hc keys cs (c11b_rowLe_trans keys w _ h)
+     (c11b_rowLe_total keys w _ h) a ha⟩
+
+/-- F: ORDER BY returns the specification's ordered result (the stable sort under the order
+strings < booleans < numbers by exact value < NaN), for every table, key list and chunking. -/
+theorem c11b_sort_eq_spec_order (cap : Nat) (hc : 0 < cap) (keys : List SortKey) (cs : List (List Row))
+    (h : ∀ r ∈ cs.flatten, ∀ v ∈ r, v.inRange = true) :
+    (sortOp cap keys cs).flatten = cs.flatten.mergeSort (specRowLe keys) := by
+  rw [c11b_sort_flatten cap hc]
+  have := map_mergeSort (r := rowLe keys) (s := specRowLe keys) (f := id) (l := cs.flatten)
+    (fun a ha b hb => c11b_rowLe_eq_spec keys a b (h a ha) (h b hb))
+  simpa using this
+
+/-- F: the specification's comparator is a total preorder on the rows of every table. -/
+theorem c11b_spec_order_total_preorder (keys : List SortKey) (w : Nat) (rows : List Row)
+    (h : ∀ r ∈ rows, RowOK w r) :
     TransOn (specRowLe keys) rows ∧ TotalOn (specRowLe keys) rows := by
-  have ok := specCmpRows_ok keys
+  have ok := cmpRowsBy_ok_table specCmpVals (specCmpVals_ok.mono (fun _ _ => trivial)) keys w
   constructor
   · intro a ha b hb c hc h1 h2
-    unfold specRowLe at h1 h2 ⊢
+    unfold specRowLe rowLeBy at h1 h2 ⊢
     simp only [bne_iff_ne, ne_eq] at h1 h2 ⊢
     exact ok.le_trans a b c (h a ha) (h b hb) (h c hc) h1 h2
   · intro a ha b hb
-    unfold specRowLe
+    unfold specRowLe rowLeBy
     rw [ok.flip a b (h a ha) (h b hb)]
-    cases specCmpRows keys a b <;> simp [flipOrd]
+    cases cmpRowsBy specCmpVals keys a b <;> simp [flipOrd]
 
-/-- P: where the engine's comparator agrees with the specification's on the rows present (a
-decidable condition on the table), ORDER BY returns the specification's ordered result. -/
-theorem c11b_sort_eq_spec_order_partial (cap : Nat) (hc : 0 < cap) (keys : List SortKey) (cs : List (List Row))
-    (h : ∀ a ∈ cs.flatten, ∀ b ∈ cs.flatten, rowLe keys a b = specRowLe keys a b) :
-    (sortOp cap keys cs).flatten = cs.flatten.mergeSort (specRowLe keys) := by
-  rw [c11b_sort_flatten cap hc]
-  have := map_mergeSort (r := rowLe keys) (s := specRowLe keys) (f := id) (l := cs.flatten) h
-  simpa using this
+/-- N: non-vacuity of the sort theorems — kinds mixed in one column (a string, a boolean,
+integers, NULL), a second key descending, equal keys in input order (the last column tells the
+rows apart), three input chunks, output chunks of 3. -/
+theorem c11b_sort_nonvacuous :
+    sortOp 3 [⟨0, true, false⟩, ⟨1, false, false⟩]
+      [[[.int 7, .int 1, .int 0], [.null, .int 1, .int 1]],
+       [], [[.int 2, .int 1, .int 2], [.str [97], .int 1, .int 3], [.bool true, .int 1, .int 4],
+       [.int 2, .int 2, .int 5], [.int 2, .int 1, .int 6]]] =
+      [[[.str [97], .int 1, .int 3], [.bool true, .int 1, .int 4], [.int 2, .int 2, .int 5]],
+       [[.int 2, .int 1, .int 2], [.int 2, .int 1, .int 6], [.int 7, .int 1, .int 0]],
+       [[.null, .int 1, .int 1]]] := by
+  simp [sortOp, rechunkAll, rechunk, List.mergeSort, List.MergeSort.Internal.splitInTwo, rowLe, rowLeBy,
+    cmpRowsBy, keyCmpBy, nullsCmp, sortCmpVals, kindRank, flipOrd, compare, compareOfLessAndEq]
+
+/-! ### regression: the comparator before the repair -/
+
+namespace Old
+
+/-- R: it was NOT transitive across kinds: values of different kinds compared "equal", so
+`2 ≤ 'a' ≤ 1` although `2 > 1`; the repaired comparator orders the three. -/
+theorem c11b_rowLe_not_transitive_mixed_kinds_regression :
+    let k : List SortKey := [⟨0, true, false⟩]
+    Old.rowLe k [.int 2] [.str [97]] = true ∧ Old.rowLe k [.str [97]] [.int 1] = true ∧
+      Old.rowLe k [.int 2] [.int 1] = false ∧
+    Ops2.rowLe k [.int 2] [.str [97]] = false := by
+  decide
+
+/-- R: nor with NaN among floats (NaN compared "equal" to every number): `2.0 ≤ NaN ≤ 1.0`. -/
+theorem c11b_rowLe_not_transitive_nan_regression :
+    let k : List SortKey := [⟨0, true, false⟩]
+    Old.rowLe k [.flt 0x4000000000000000] [.flt 0x7ff8000000000000] = true ∧
+    Old.rowLe k [.flt 0x7ff8000000000000] [.flt 0x3ff0000000000000] = true ∧
+    Old.rowLe k [.flt 0x4000000000000000] [.flt 0x3ff0000000000000] = false ∧
+    Ops2.rowLe k [.flt 0x7ff8000000000000] [.flt 0x3ff0000000000000] = false := by
+  decide
+
+/-- R: nor between integers beyond 2^53 and floats (`i64 as f64` rounds): 2^53+1 ≤ 2^53 (as
+float) ≤ 2^53 although 2^53+1 > 2^53. -/
+theorem c11b_rowLe_not_transitive_int_float_regression :
+    let k : List SortKey := [⟨0, true, false⟩]
+    Old.rowLe k [.int 9007199254740993] [.flt 0x4340000000000000] = true ∧
+    Old.rowLe k [.flt 0x4340000000000000] [.int 9007199254740992] = true ∧
+    Old.rowLe k [.int 9007199254740993] [.int 9007199254740992] = false ∧
+    Ops2.rowLe k [.int 9007199254740993] [.flt 0x4340000000000000] = false := by
+  decide +kernel
+
+/-- R: what came out then was not sorted: `sort_by` (an insertion sort up to 20 rows) left
+`2, 'a', 1` as it was; beyond 20 rows it could panic ("user-provided comparison function does not
+correctly implement a total order" — corpus line `sort.m p … [1.0, NaN, 2.0] × 7`: with the old
+comparator the 21 rows do not even have a sorted arrangement, `2.0 ≤ NaN ≤ 1.0 < 2.0`). -/
+theorem c11b_sort_mixed_kinds_unsorted_regression :
+    Old.sortSmall [⟨0, true, false⟩] [[.int 2], [.str [97]], [.int 1]] = [[.int 2], [.str [97]], [.int 1]] ∧
+    Old.rowLe [⟨0, true, false⟩] [.int 2] [.int 1] = false := by
+  decide
+
+/-- R: "the ORDER BY comparator is transitive on all rows" was false. -/
+theorem c11b_rowLe_transitive_refuted_regression :
+    ¬ ∀ (keys : List SortKey) (a b c : Row),
+      Old.rowLe keys a b = true → Old.rowLe keys b c = true → Old.rowLe keys a c = true := by
+  intro h
+  exact absurd (h [⟨0, true, false⟩] [.int 2] [.str [97]] [.int 1] (by decide) (by decide)) (by decide)
+
+end Old
 
 end Comparator
 
@@ -1581,13 +1712,6 @@ theorem c11b_code_classes_eq_sql_refuted :
   intro h
   exact absurd (h (.bin .eq (.col 0) (.col 1)) [.null, .null] (by decide)) (by decide)
 
-/-- W: "the engine's ORDER BY comparator is transitive on all rows" — false. -/
-theorem c11b_rowLe_transitive_refuted :
-    ¬ ∀ (keys : List SortKey) (a b c : Row),
-      rowLe keys a b = true → rowLe keys b c = true → rowLe keys a c = true := by
-  intro h
-  exact absurd (h [⟨0, true, false⟩] [.int 2] [.str [97]] [.int 1] (by decide) (by decide)) (by decide)
-
 /-- W: "HashAggregateOperator without group columns = SimpleAggregateOperator" — false. -/
 theorem c11b_count_hash_eq_simple_refuted :
     ¬ ∀ (col : Nat) (cs : List (List Row)), hashAgg0 col cs = simpleAgg col cs := by
@@ -1613,11 +1737,10 @@ example : rowLe [⟨0, true, false⟩, ⟨1, false, true⟩] [.int 1, .str [97]]
 example : hashAgg0 0 [[[.int 1], [.null]], [], [[.int 2]]] = [[(3, 2)]] ∧
     simpleAgg 0 [[[.int 1], [.null]], [], [[.int 2]]] = [[(3, 2)]] := by decide
 
-example : orderedKeys [⟨0, true, false⟩] [[.int 3], [.flt 0x3ff8000000000000], [.null], [.int (-2)]] = true ∧
-    orderedKeys [⟨0, true, false⟩] [[.int 9007199254740993], [.flt 0x3ff8000000000000], [.int 9007199254740992]] = false ∧
-    orderedKeys [⟨0, true, false⟩] [[.int 9007199254740993], [.int 9007199254740992]] = true ∧
-    orderedKeys [⟨0, true, false⟩] [[.flt 0x7ff8000000000000], [.flt 0x3ff8000000000000]] = false ∧
-    orderedKeys [⟨0, true, false⟩] [[.str [97]], [.bool true]] = false := by decide
+example : rowLe [⟨0, true, false⟩] [.str [98]] [.bool false] = true ∧ rowLe [⟨0, true, false⟩] [.bool true] [.int (-5)] = true ∧
+    rowLe [⟨0, true, false⟩] [.flt 0x7ff0000000000000] [.flt 0x7ff8000000000000] = true ∧
+    rowLe [⟨0, true, false⟩] [.flt 0x8000000000000000] [.flt 0] = true ∧ rowLe [⟨0, true, false⟩] [.flt 0] [.flt 0x8000000000000000] = true ∧
+    rowLe [⟨0, true, false⟩] [.int 9007199254740993] [.flt 0x4340000000000000] = false := by decide +kernel
 
 example : specRowLe [⟨0, true, false⟩] [.str [98]] [.bool false] = true ∧
     specRowLe [⟨0, true, false⟩] [.bool true] [.int (-5)] = true ∧
@@ -1627,7 +1750,7 @@ example : specRowLe [⟨0, true, false⟩] [.str [98]] [.bool false] = true ∧
 example : (Stage.distinct none).pull 2 [[[.int 1], [.int 1], [.int 2]], [[.int 2], [.int 3]]] = [[[.int 1], [.int 2]], [[.int 3]]] := by
   decide
 
-example : insSort (fun (a b : Nat) => a < b) [3, 1, 2, 1] = [1, 1, 2, 3] := by decide
+example : Old.insSort (fun (a b : Nat) => a < b) [3, 1, 2, 1] = [1, 1, 2, 3] := by decide
 
 /-! ## §8 query level: predicates over node properties (a missing property has no value) -/
 
